@@ -172,12 +172,14 @@ func (r *defaultReceiver[T]) accept(item T) error {
 }
 
 func (r *defaultReceiver[_]) close() {
+	defer verifYield("receiver.closure.afterWake")
 	r.mu.Lock()
 	defer r.mu.Unlock()
 	r.handleClosure(&r.closed)
 }
 
 func (r *defaultReceiver[_]) cancel() {
+	defer verifYield("receiver.closure.afterWake")
 	r.mu.Lock()
 	defer r.mu.Unlock()
 	r.handleClosure(&r.cancelled)
@@ -308,6 +310,7 @@ func (r *noFlowControlReceiver[T]) accept(item T) error {
 }
 
 func (r *noFlowControlReceiver[T]) close() {
+	defer verifYield("receiver.closure.afterWake")
 	r.doClose.Do(func() {
 		// Let any concurrent accepting thread know that we intend
 		// to close and thus need the lock.
